@@ -179,7 +179,11 @@ func ruleWhoMayCancel(c *Ctx, r *R, anchor, wrapper, cancelField string, winnerM
 	for _, fn := range c.funcsOfPkg(pkgRel) {
 		root := rootFn(fn)
 		if root != bi.fn && !worker[fn] && !(root.Signature.Recv() != nil && isNamedType(root.Signature.Recv().Type(), pkgRel, wrapper)) {
-			continue
+			// a method of a state type of the package that groups the cancel function with the WaitGroup
+			// (batchWorkers.stopAndWait): looked at when Close - and nobody else - calls it
+			if root.Signature.Recv() == nil || fn != root {
+				continue
+			}
 		}
 		instrs(fn, func(b *ssa.BasicBlock, i int, in ssa.Instruction) {
 			call, ok := in.(*ssa.Call)
@@ -192,6 +196,8 @@ func ruleWhoMayCancel(c *Ctx, r *R, anchor, wrapper, cancelField string, winnerM
 			switch {
 			case strings.HasSuffix(name, wrapper+".Close"):
 				r.discharged(key, call.Pos(), "Close cancels the workers")
+			case calledOnlyByClose(c, fn, wrapper):
+				r.discharged(key, call.Pos(), "the method is called by "+wrapper+".Close only: Close cancels the workers")
 			case closeOnlyLiteral(c, fn, pkgRel, wrapper):
 				r.discharged(key, call.Pos(), "the literal is kept in a field of "+wrapper+" that only Close calls: Close cancels the workers")
 			case worker[fn] && !winnerMayCancel:
@@ -1515,4 +1521,18 @@ func closeOnlyLiteral(c *Ctx, fn *ssa.Function, pkgRel, wrapper string) bool {
 		})
 	}
 	return okUse && calls > 0
+}
+
+// calledOnlyByClose: fn is a method that has call sites, all of them in the Close method of the wrapper type.
+func calledOnlyByClose(c *Ctx, fn *ssa.Function, wrapper string) bool {
+	sites := callSitesOf(c, fn)
+	if len(sites) == 0 || fn.Signature.Recv() == nil {
+		return false
+	}
+	for _, site := range sites {
+		if !strings.HasSuffix(c.nameOf(site.Parent()), wrapper+".Close") {
+			return false
+		}
+	}
+	return true
 }
